@@ -471,8 +471,8 @@ def run_case(case, ctx):
             y1, g1 = _cycle(net, ins, outs, xs, seeds, pre, setin=not keep_inputs)
             net2, ins2, outs2, _, _ = build(kind, par)
             y2, g2 = _cycle(net2, ins2, outs2, xs, seeds)
-        except RuntimeError as e:
-            if kind == "eig-sparse" and "exactly singular" in str(e):
+        except (RuntimeError, np.linalg.LinAlgError) as e:
+            if kind == "eig-sparse" and ("exactly singular" in str(e) or "Singular matrix" in str(e)):
                 raise Skip("sparse eigenvector adjoint raised 'exactly singular' (known finding of C01)")
             raise
     worst = 0.0
